@@ -96,6 +96,13 @@ def run(check, prog):
     classes = sorted(prog.subclasses(BASE)) + [None]
     nrow = 0
     bad = []
+    # the documented rule names shapes, not a position in the class hierarchy:
+    # which *shape* each class of the package is, is part of the oracle (the class
+    # hierarchy only evaluates the isinstance tests).  A Janus or coated particle
+    # that happens to inherit from Sphere is still "any other shape".
+    DOC_MIE = {'Sphere', 'LayeredSphere'}
+    DOC_CLUSTER = {'Spheres', 'RigidCluster'}
+    DOC_TMATRIX = {'Spheroid', 'Cylinder'}
     for C in classes:
         def hyp(t, C=C):
             if t[0] == 'call' and t[1] == 'isinstance' and len(t[2]) == 2 and \
@@ -116,13 +123,13 @@ def run(check, prog):
             want_txt = 'AutoTheoryFailed'
             ok_ = leaf is not None and leaf[0] == 'raise' and \
                 'AutoTheoryFailed' in show(leaf)
-        elif prog.is_subclass(C, SPH):
+        elif C.rpartition('.')[2] in DOC_MIE:
             want_txt = 'Mie()'
             ok_ = leaf == ('new', TH + 'mie.Mie', (), ())
-        elif prog.is_subclass(C, SPHS):
+        elif C.rpartition('.')[2] in DOC_CLUSTER:
             want_txt = '_choose_mie_vs_multisphere(scatterer)'
             ok_ = leaf == ('call', I + '_choose_mie_vs_multisphere', (sc_,), ())
-        elif prog.is_subclass(C, SPHD) or prog.is_subclass(C, CYL):
+        elif C.rpartition('.')[2] in DOC_TMATRIX:
             want_txt = 'Tmatrix()'
             ok_ = leaf == ('new', TH + 'tmatrix.Tmatrix', (), ())
         else:
@@ -138,6 +145,23 @@ def run(check, prog):
                   'separation; Spheroid, Cylinder -> Tmatrix; any other scatterer -> DDA; '
                   'anything else -> AutoTheoryFailed (%d classes)' % nrow, loc,
                   fail_detail='; '.join(bad[:4]))
+    # Mie.can_handle: the single-sphere series is applied to spheres only (a class
+    # that merely inherits from Sphere is computed as a concentric sphere, silently)
+    from hpstatic.logic import eval3
+    from .common import isinstance_value
+    qm = TH + 'mie.Mie.can_handle'
+    fdm = prog.func(qm)
+    rm = Interp(prog, max_depth=1).analyze(qm)
+    subj = sym(fdm.args.args[1].arg)
+    wrong = []
+    for C in classes:
+        acc = eval3(rm.ret, lambda t, C=C: isinstance_value(prog, t, subj, C))
+        name = C.rpartition('.')[2] if C else 'a non-scatterer'
+        if acc is None or acc != (name in DOC_MIE):
+            wrong.append('%s: %s' % (name, acc))
+    check.require(not wrong, 'Q1-default-theory-table', 'Mie.can_handle',
+                  'Mie accepts exactly %s' % sorted(DOC_MIE), prog.loc(qm, fdm),
+                  fail_detail='can_handle gives ' + '; '.join(wrong[:4]))
     # DDA.can_handle
     q2 = TH + 'dda.DDA.can_handle'
     it2 = Interp(prog, max_depth=1)
@@ -350,7 +374,11 @@ def co_indexed(check, prog):
         if t[0] == 'call' and t[1] == 'isinstance' and t[2][0] == sc:
             return show(t[2][1]).endswith('Spheres')
         return None
-    it = Interp(prog, max_depth=1, decide=decide)
+    # the collection's per-member accessors (centers, n, n_real, r, ...) are
+    # evaluated down to the member attribute they read
+    it = Interp(prog, max_depth=2, decide=decide,
+                opaque=['holopy.scattering.scatterer.spherecluster.Spheres.__init__'])
+    it.types[sc] = prog.find_class('Spheres')
     it.analyze(q)
     am = [c for c in it.calls if c['name'].endswith('amncalc')]
     if len(am) != 1 or len(am[0]['args']) < 7:
